@@ -6,7 +6,7 @@ use crate::xtypes::{
     type_object::TypeIdentifier,
     type_support::TypeSupport,
 };
-use alloc::{string::ToString, vec::Vec};
+use alloc::vec::Vec;
 
 type RepresentationIdentifier = [u8; 2];
 const CDR_BE: RepresentationIdentifier = [0x00, 0x00];
@@ -1165,7 +1165,8 @@ impl AsBytes for f64 {
 }
 impl AsBytes for char {
     fn as_bytes<'a, E>(&self, writer: &mut CdrWriter<'a>) {
-        writer.write_slice(self.to_string().as_bytes());
+        // char8 is ONE octet on the wire; the reader does char::from(u8) (ISO 8859-1)
+        writer.write_byte(*self as u32 as u8);
     }
 }
 
